@@ -10,12 +10,15 @@ Property theorems only (helpers: `Sqfs/Proofs/Quote*.lean`).
   are about it and assume nothing about LF: a listing is printed only if it rebuilds the tree.
 * The parser side (`split_line.c`, `parse_int.c`, `get_line.c`, `fstree_from_file.c`) is the code in /repo.
 
-All theorems end at the arguments of `fstree_add_generic` (see `Sqfs/Spec/Quote.lean`: `specEntry`); what happens
-to an entry afterwards (tree → image → tree, file contents) is not modelled here.
+The round-trip theorems end at the arguments of `fstree_add_generic` (see `Sqfs/Spec/Quote.lean`: `specEntry`);
+`rebuild_fstree` goes one step further, through the real `fstree_add_generic` into the tree gensquashfs holds in
+memory (`Sqfs/Model/QuoteFs.lean`, `Sqfs/Spec/QuoteFs.lean`).  From that tree to the image and back (the writer, the
+reader, `rdsquashfs -u`, file contents) nothing is modelled here.
 -/
 import Sqfs.Proofs.QuoteTree
 import Sqfs.Proofs.QuoteCursor
 import Sqfs.Proofs.QuoteLF
+import Sqfs.Proofs.QuoteFs
 namespace Sqfs.C16
 open Sqfs.Path (Bytes joinSlash)
 open Sqfs.Quote
@@ -146,6 +149,32 @@ theorem handle_print_newline_sound (ur : Option Bytes) (hur : ∀ r, ur = some r
         ((specEntry ur comps n).toList ++ (fstreeFromFile {} rest).1, (fstreeFromFile {} rest).2) :=
   lf_node_decodes ur hur comps n hc hn hroot line h
 
+/-!
+### one step further: the tree gensquashfs builds from the listing
+
+Full statement of the property's clause "yields an image with the same paths, types, permission bits, owners, symlink
+targets, device numbers and file contents":  `read (write (build (describe t))) ≈ t` and the contents of the files
+named by the locations equal the contents in the original image.  What is proved is the part up to `build`: the
+in-memory tree.  Missing: the image writer and reader (property C01 owns that model), `rdsquashfs -u` producing the
+files the locations name (C06), file contents.
+-/
+
+/--
+**The listing rebuilds the tree in gensquashfs' memory.**  For the tree `t` of any image (`RootOk`) whose directories
+hold pairwise different names (and fewer than 2³² − 3 entries each): `rdsquashfs --describe [--unpack-root R]` succeeds
+and `gensquashfs --pack-file`, reading its output with the real `fstree_add_generic` into a fresh `fstree_t`, ends
+without error with exactly `normTree`: every described node at its path below its rebuilt parent, with the same type,
+permission bits (a symbolic link: always 0777 — `mknode` ignores a link's mode), owner, link target, device number,
+for a regular file the input location `<path>` / `R/<path>`, link count 1 or 2 + number of described children, no
+directory left "created implicitly", the children linked with `insert_sorted`.
+-/
+theorem rebuild_fstree_partial (d : Sqfs.QuoteFs.Defaults) (hd : d.mtime < 2 ^ 32) (ur : Option Bytes)
+    (hur : ∀ r, ur = some r → LineSafe r) (t : Tree) (ht : RootOk t) (hdist : Sqfs.QuoteFs.Distinct t) :
+    ∃ out, describe ur t = .ok out ∧ Sqfs.QuoteFs.buildFromFile {} d out = (Sqfs.QuoteFs.normTree d ur [] t, none) := by
+  obtain ⟨out, h1, h2⟩ := describe_roundtrip_proof ur hur t ht
+  refine ⟨out, h1, ?_⟩
+  simp only [Sqfs.QuoteFs.buildFromFile, h2, Sqfs.QuoteFs.build_root d hd ur t ht hdist, Option.map_none]
+
 /-- `split_line` never runs out of the model's fuel: every iteration of its outer loop consumes input (so the
 model's `splitLine` is the C function, not a truncation of it) — for every separator set and every buffer -/
 theorem split_never_fuel (sep line : Bytes) : splitLine sep line ≠ .error .fuel := by
@@ -227,6 +256,29 @@ example : Sqfs.QuoteLF.describe (some [82, 32, 115]) (.mk [] { kind := .dir, per
 -- a LF in an `--unpack-root` that is never printed (no regular file) does not make it refuse
 example : Sqfs.QuoteLF.describe (some [10]) (.mk [] { kind := .dir, perm := 0o700, uid := 7, gid := 8 } [])
     = .ok [100,105,114,32,47,32,48,55,48,48,32,55,32,56,10] := by decide
+-- `rebuild_fstree_partial`: hypotheses hold for a root 0700 7:8 with `b` (a link with mode 0755 → `x y`), `a` (a directory with a
+-- device node) and a socket of a type that is not described; the rebuilt tree has the children sorted, the link 0777
+def exFs : Tree := .mk [] { kind := .dir, perm := 0o700, uid := 7, gid := 8 }
+    [.mk [98] { kind := .slink, perm := 0o755, uid := 1, gid := 2, target := [120, 32, 121] } [],
+     .mk [97] { kind := .dir, perm := 0o755, uid := 0, gid := 0 }
+       [.mk [110] { kind := .chr, perm := 0o600, uid := 0, gid := 0, devno := 0x0501 } []],
+     .mk [111] { kind := .other, perm := 0, uid := 0, gid := 0 } []]
+example : RootOk exFs := by
+  unfold exFs
+  simp only [RootOk, ForestOk, TreeOk, GoodName, Node.Wf, LineSafe]
+  and_intros
+  all_goals decide
+example : Sqfs.QuoteFs.Distinct exFs := by
+  simp only [exFs, Sqfs.QuoteFs.Distinct, Sqfs.QuoteFs.DistinctF, List.map, Tree.name, List.length]
+  decide
+example : (describe none exFs).toOption.map (fun out =>
+      let r := Sqfs.QuoteFs.buildFromFile {} { mtime := 9 } out
+      (r.1.flat 0, r.2))
+    = some ([(0, [], { mode := 0o40700, uid := 7, gid := 8, mtime := 9, linkCount := 4, implicit := false, rdev := 0, extra := none }),
+             (1, [97], { mode := 0o40755, uid := 0, gid := 0, mtime := 9, linkCount := 3, implicit := false, rdev := 0, extra := none }),
+             (2, [110], { mode := 0o20600, uid := 0, gid := 0, mtime := 9, linkCount := 1, implicit := false, rdev := 0x0501, extra := none }),
+             (1, [98], { mode := 0o120777, uid := 1, gid := 2, mtime := 9, linkCount := 1, implicit := false, rdev := 0, extra := some [120, 32, 121] })],
+            none) := by decide
 -- the cursor theorem's hypothesis is satisfiable (and tight: dst = src on the last token of `a "b" c`)
 example : splitPos packSep 7 [97,32,34,98,34,32,99] 0 0 = .ok [(0, 0), (2, 2), (4, 6)] := by decide
 
